@@ -10,12 +10,18 @@ What is patched
   * index recorder (layer 3 of C09): `FlowHead.position` / `FlowHead.status` setters, `FlowState.status` setter,
     `FlowState.heads` (recording dict), `_flow_head_changed`, `_remove_head_from_event_matching_structures`,
     `add_new_flow_instance`, `_clean_up_state`.  The recorder only appends to a list; it never changes behaviour.
+  * worklist recorder (C09, only while `REC.loops_on`): `_resolve_action_conflicts` (called once per iteration of
+    `while heads_are_advancing` with the pending list) and `_advance_head_front` (top-level calls from `run_to_completion`:
+    per internal event with the matching heads, per iteration of `while heads_are_merging` with the merging heads, per
+    advancing iteration with the advancing heads) are wrapped; each call / return appends a boundary record
+    (`loop_boundary`) with the worklists and every non-INACTIVE head of the state.  Pass-through otherwise.
 """
 import contextlib
 import datetime as _dt
 import io
 import os
 import re
+import sys
 import types
 
 _INSTALLED = False
@@ -38,6 +44,8 @@ class _Rec:
         self.rng = None
         self.clock = 0.0
         self.notes = []
+        self.loops_on = False    # C09 (worklist tie): record the pending lists at the loop boundaries of run_to_completion
+        self.loops = []          # boundary records since the last `take_loops()`
 
 
 REC = _Rec()
@@ -139,6 +147,59 @@ class RecHeads(dict):
 
     def __reduce__(self):  # deepcopy / pickle: plain dict content, owner dropped
         return (dict, (dict(self),))
+
+
+def elem_kind(el):
+    """'match' / 'wait' (the two kinds of element a head may be parked on), 'end' (no element), else the element's kind."""
+    from nemoguardrails.colang.v2_x.lang import colang_ast as A
+
+    if el is None:
+        return "end"
+    if isinstance(el, A.SpecOp):
+        return "match" if el.op == "match" else ("send" if el.op == "send" else "op:" + str(el.op))
+    if isinstance(el, A.WaitForHeads):
+        return "wait"
+    if isinstance(el, A.MergeHeads):
+        return "merge"
+    return type(el).__name__
+
+
+def heads_list(heads):
+    """A worklist as data: [[flow uid, head uid, position, head status], ...] (list order kept)."""
+    out = []
+    for h in heads or []:
+        try:
+            out.append([h.flow_state_uid, h.uid, h.position, h.status.value])
+        except Exception:  # noqa
+            out.append([None, repr(h)[:40], None, None])
+    return out
+
+
+def live_heads(state):
+    """Every non-INACTIVE head of every flow instance: [flow uid, flow status, head uid, position, head status, element kind]."""
+    out = []
+    for uid, fs in state.flow_states.items():
+        cfg = state.flow_configs.get(fs.flow_id)
+        els = cfg.elements if cfg is not None else []
+        for hu, h in fs.heads.items():
+            if h.status.value == "inactive":
+                continue
+            el = els[h.position] if 0 <= h.position < len(els) else None
+            out.append([uid, fs.status.value, hu, h.position, h.status.value, elem_kind(el)])
+    return out
+
+
+def loop_boundary(state, at, **lists):
+    """One boundary record of the loops of `run_to_completion`: `at` names the point, the keyword lists are worklists."""
+    rec = {"at": at, "queue": len(state.internal_events), "live": live_heads(state)}
+    for k, v in lists.items():
+        rec[k] = None if v is None else heads_list(v)
+    REC.loops.append(rec)
+
+
+def take_loops():
+    l, REC.loops = REC.loops, []
+    return l
 
 
 def install():
@@ -277,6 +338,42 @@ def install():
             REC.notes.append([type(exc[-1]).__name__, str(exc[-1])[:80]])
         return orig_warning(msg, *args, **kw)
 
+    # ---- worklist recorder (loop boundaries of run_to_completion); pass-through unless REC.loops_on
+    orig_resolve = statemachine._resolve_action_conflicts
+    orig_advance = statemachine._advance_head_front
+    _ORIG.update(resolve=orig_resolve, advance=orig_advance)
+
+    def resolve_action_conflicts(state, actionable_heads):
+        if REC.loops_on and REC.state is state:
+            top = sys._getframe(1).f_code.co_name == "run_to_completion"
+            loop_boundary(state, "resolve" if top else "resolve-nested", pending=list(actionable_heads))
+        return orig_resolve(state, actionable_heads)
+
+    def advance_head_front(state, heads):
+        site = None
+        if REC.loops_on and REC.state is state:
+            caller = sys._getframe(1)
+            if caller.f_code.co_name == "run_to_completion":
+                # which of the three call sites: by identity of the argument with the caller's local worklists
+                loc = caller.f_locals
+                if heads is loc.get("merging_heads"):
+                    site = "merge"
+                elif heads is loc.get("advancing_heads"):
+                    site = "advance"
+                elif heads is loc.get("heads_matching"):
+                    site = "match"
+                else:
+                    site = "unknown"
+                act = loc.get("actionable_heads")
+                act = list(act) if isinstance(act, list) else None
+                loop_boundary(state, site + "-in", heads=list(heads), actionable=act)
+        out = orig_advance(state, heads)
+        if site is not None:
+            loop_boundary(state, site + "-out", out=list(out), actionable=act)
+        return out
+
+    statemachine._resolve_action_conflicts = resolve_action_conflicts
+    statemachine._advance_head_front = advance_head_front
     statemachine.log.warning = warning
     statemachine._flow_head_changed = flow_head_changed
     statemachine._remove_head_from_event_matching_structures = remove_head
